@@ -43,36 +43,57 @@ func runC17(w *World, r *Report, tier string) {
 		f, _ := loadedField(origin(c.Call.Args[0]))
 		return f == fU
 	}
+	// (res: how a value is to be resolved — identity for the flow-insensitive use, along the path for the path-based one)
+	assertsNonEmpty := func(fn *ssa.Function, c ssa.Value, truth bool, res func(ssa.Value) ssa.Value) bool {
+		if bo, ok := c.(*ssa.BinOp); ok {
+			if z, isZ := intConst(bo.Y); isZ && z == 0 && isLenU(bo.X) {
+				switch bo.Op {
+				case token.EQL, token.LEQ:
+					return !truth
+				case token.NEQ, token.GTR:
+					return truth
+				}
+			}
+			if z, isZ := intConst(bo.X); isZ && z == 0 && isLenU(bo.Y) {
+				switch bo.Op {
+				case token.EQL, token.GEQ:
+					return !truth
+				case token.NEQ, token.LSS:
+					return truth
+				}
+			}
+		}
+		if call, _ := callResult(res(c)); call != nil && w.callKey(call) == "stanza.UnAckQueue.Empty" && isRecv(fn, call.Call.Args[0]) {
+			return !truth
+		}
+		if x, eq, ok := nilCompare(c); ok {
+			if call, _ := callResult(res(x)); call != nil && w.callKey(call) == "stanza.UnAckQueue.Peek" && isRecv(fn, call.Call.Args[0]) {
+				return eq != truth
+			}
+		}
+		return false
+	}
 	nonEmptyEdges := func(fn *ssa.Function) EdgeSet {
 		return edgesAsserting(fn, func(c ssa.Value, truth bool) bool {
-			if bo, ok := c.(*ssa.BinOp); ok {
-				if z, isZ := intConst(bo.Y); isZ && z == 0 && isLenU(bo.X) {
-					switch bo.Op {
-					case token.EQL, token.LEQ:
-						return !truth
-					case token.NEQ, token.GTR:
-						return truth
-					}
-				}
-				if z, isZ := intConst(bo.X); isZ && z == 0 && isLenU(bo.Y) {
-					switch bo.Op {
-					case token.EQL, token.GEQ:
-						return !truth
-					case token.NEQ, token.LSS:
-						return truth
-					}
-				}
-			}
-			if call, _ := callResult(c); call != nil && w.callKey(call) == "stanza.UnAckQueue.Empty" && isRecv(fn, call.Call.Args[0]) {
-				return !truth
-			}
-			if x, eq, ok := nilCompare(c); ok {
-				if call, _ := callResult(x); call != nil && w.callKey(call) == "stanza.UnAckQueue.Peek" && isRecv(fn, call.Call.Args[0]) {
-					return eq != truth
-				}
-			}
-			return false
+			return assertsNonEmpty(fn, c, truth, func(v ssa.Value) ssa.Value { return v })
 		})
+	}
+	// path-based form: every path from the entry that passes `at` has crossed an edge establishing non-emptiness
+	// (a test in a deferred function literal, or of a variable kept in memory, is resolved along the path)
+	nonEmptyOnPathsTo := func(fn *ssa.Function, at ssa.Instruction) bool {
+		okAll, n := true, 0
+		err := walkPaths(entryLoc(fn), nil, nil, 5000, func(path []ssa.Instruction, end pathEnd) {
+			if countOn(path, func(in ssa.Instruction) bool { return in == at }) == 0 {
+				return
+			}
+			n++
+			if !pathAsserts(path, func(c ssa.Value, truth bool) bool {
+				return assertsNonEmpty(fn, c, truth, func(v ssa.Value) ssa.Value { return resolveOn(v, curEdgeIdx, path) })
+			}) {
+				okAll = false
+			}
+		})
+		return err == nil && okAll && n > 0
 	}
 	nonNilEdges := func(fn *ssa.Function) EdgeSet {
 		direct := edgesAsserting(fn, func(c ssa.Value, truth bool) bool {
@@ -155,15 +176,9 @@ func runC17(w *World, r *Report, tier string) {
 	// ---- R2
 	allowed := map[string]bool{"stanza.NewUnAckQueue": true, "stanza.(*UnAckQueue).Push": true, "stanza.(*UnAckQueue).Pop": true, "stanza.(*UnAckQueue).PopN": true}
 	ownerOf := func(f *ssa.Function) string {
-		// a helper the reference tree does not have counts for the (unique) known function that calls it
-		for i := 0; i < 4 && isHelper(f); i++ {
-			sites := w.callSitesOf(f)
-			if len(sites) != 1 {
-				break
-			}
-			f = sites[0].Parent()
-		}
-		return w.funcKey(f)
+		// a helper the reference tree does not have (or a function literal called or deferred where it is written)
+		// counts for the known function it runs for
+		return w.ownerKey(f)
 	}
 	for _, a := range w.fieldAccesses(fU, w.LibFuncs()) {
 		if a.Kind == "load" || a.Kind == "subfield" {
@@ -285,7 +300,7 @@ func runC17(w *World, r *Report, tier string) {
 				ok, detail = false, "Pop stores "+got+", expected "+want
 			}
 			cut := nonEmptyEdges(fn)
-			if len(cut) == 0 || reachable(entryLoc(fn), func(in ssa.Instruction) bool { return in == ssa.Instruction(st) }, nil, cut) {
+			if (len(cut) == 0 || reachable(entryLoc(fn), func(in ssa.Instruction) bool { return in == ssa.Instruction(st) }, nil, cut)) && !nonEmptyOnPathsTo(fn, st) {
 				ok, detail = false, "Pop removes the head even when the queue is empty (slice bounds out of range)"
 			}
 			// every non-nil result is the former head: Peek()'s result or Uslice[0] read before the store
@@ -347,9 +362,7 @@ func runC17(w *World, r *Report, tier string) {
 			got := w.nf(stores[0].Val, 0)
 			peek := fmt.Sprintf("stanza.UnAckQueue.PeekN(param:%s,param:%s)", fn.Params[0].Name(), fn.Params[1].Name())
 			want := fmt.Sprintf("slice(%s,builtin.len(%s),_,_)", U(fn), peek)
-			if got != want {
-				ok, detail = false, "PopN stores "+got+", expected "+want
-			}
+			perPath := got != want // (a store in a deferred literal reads the result variable: judged on each path)
 			walkPaths(entryLoc(fn), nil, nil, 500, func(path []ssa.Instruction, end pathEnd) {
 				rt, isRet := path[len(path)-1].(*ssa.Return)
 				if !isRet {
@@ -357,6 +370,11 @@ func runC17(w *World, r *Report, tier string) {
 				}
 				res := rres(path, rt)[0]
 				stored := countOn(path, func(in ssa.Instruction) bool { return in == ssa.Instruction(stores[0]) }) > 0
+				if perPath && stored {
+					if g := w.nfOn(stores[0].Val, path); g != want {
+						ok, detail = false, "PopN stores "+g+", expected "+want
+					}
+				}
 				if isNilConst(res) {
 					if stored {
 						ok, detail = false, "PopN removes elements and returns nil"
